@@ -51,4 +51,6 @@ func (f *DefaultFanController) VerifLastSetPwm() (int, bool) {
 	}
 	return *f.lastSetPwm, true
 }
+func (f *DefaultFanController) VerifControlLoop() control_loop.ControlLoop { return f.controlLoop }
+func (f *DefaultFanController) VerifUpdateDistinct()            { f.updateDistinctPwmValues() }
 func VerifTrySetManualPwm(fan fans.Fan) error { return trySetManualPwm(fan) }
